@@ -1,3 +1,6 @@
 import Properties.C13
 import Properties.C09
 import Properties.C10
+import Properties.C06
+import Properties.C07
+import Properties.C12
